@@ -1,4 +1,5 @@
 SPECIFICATION Spec
+CONSTANTS Defects = {}
 INVARIANTS InsideInitialInterval SignChangeKept ResultNearRoot ValidBracketSolved WithinHalvingBound
 PROPERTY Terminates
 CHECK_DEADLOCK FALSE
